@@ -51,6 +51,77 @@ def writer_params(prog, resolver, g, cls):
     return g._pgv_writer_params
 
 
+def _writedir_by_evaluation(ctx, rep, pb, wd) -> bool:
+    """writedir(entry, [E1, E2, E3]) evaluated with the renderers standing for marked strings: what reaches the client is
+    start + one rendered line per entry, each exactly once and in list order (an abstract may follow its entry), + end -
+    whatever the abstract options say.  True when the evaluation decided."""
+    from ..paths import Const as _C, Walker as _W
+
+    prog = ctx.prog
+    if len(wd.params) < 3:
+        return False
+    entries = ["<E1>", "<E2>", "<E3>"]
+    holder = {}
+
+    def cv(call, target, st):
+        f = call.func
+        w = holder["w"]
+        a = w.cur_args or []
+        if isinstance(f, ast.Attribute) and dotted(f.value) == "self":
+            if f.attr == "renderobjinfo" and a and a[0].kind == "const":
+                return _C(f"[line {a[0].value}]")
+            if f.attr == "renderdirstart":
+                return _C("[start]")
+            if f.attr == "renderdirend":
+                return _C("[end]")
+            if f.attr == "renderabstract":
+                return _C("[abstract]")
+        if isinstance(f, ast.Attribute) and f.attr in ("getea",):
+            return _C("abstract text")
+        if isinstance(f, ast.Attribute) and f.attr == "write" and (dotted(f.value) or "").endswith("wfile"):
+            prev = st.facts.get("__written")
+            prev = prev.value if prev is not None and prev.kind == "const" else ()
+            v = a[0].value if a and a[0].kind == "const" else None
+            st.facts["__written"] = _C(prev + (v,))
+            return _C(None)
+        return None
+
+    w = _W(prog, ctx.resolver, call_value=cv, exact_loops=True, unroll=len(entries) + 3, max_paths=200000,
+           inline=lambda fn, t, d: d < 3 and t.bound_cls is not None and fn.name not in ("renderobjinfo", "renderdirstart", "renderdirend", "renderabstract",
+                                                                                         "groksabstract"))
+    holder["w"] = w
+    try:
+        paths = w.run(wd, pb, env={wd.params[1]: _C("<DIR>"), wd.params[2]: _C(list(entries))})
+    except Exception:
+        return False
+    problems = set()
+    n = 0
+    for p in paths:
+        if p.kind == "raise":
+            return False
+        wr = p.state.facts.get("__written")
+        wr = wr.value if wr is not None and wr.kind == "const" else ()
+        if any(x is None for x in wr):
+            return False
+        n += 1
+        text = b"".join(x if isinstance(x, bytes) else str(x).encode() for x in wr).decode()
+        body = text.replace("[abstract]", "")
+        want = "[start]" + "".join(f"[line {e}]" for e in entries) + "[end]"
+        if body != want:
+            problems.add(f"a listing of {entries} is sent as {text!r}: every entry has to be rendered and written exactly once, in order, between start and end")
+        elif "[abstract]" in text:
+            # an abstract belongs right after its own entry (or before the first one: the directory's own)
+            import re as _re
+
+            if not _re.fullmatch(r"\[start\](\[abstract\])?(\[line <E\d>\](\[abstract\])?)*\[end\]", text):
+                problems.add(f"abstract lines are misplaced: {text!r}")
+    if not n:
+        return False
+    rep.add("R06a", f"{wd.qualname}: every entry rendered and written once", not problems, ctx.where(wd), "; ".join(sorted(problems)[:2]),
+            key="R06a|writedir|" + ";".join(sorted(problems))[:80])
+    return True
+
+
 def check(ctx, rep):
     prog = ctx.prog
     eff = Effects(prog, ctx.resolver)
@@ -98,6 +169,8 @@ def check(ctx, rep):
     wd = prog.resolve_method(pb, "writedir")
     if wd is None:
         rep.fail("R06a", "writedir", detail="shared directory walk not found")
+    elif _writedir_by_evaluation(ctx, rep, pb, wd):
+        rep.analysed(wd.qualname)
     else:
         rep.analysed(wd.qualname)
         dirparam = wd.params[2] if len(wd.params) > 2 else "dirlist"
